@@ -100,7 +100,7 @@ def components(inputs, by_barcodes):
 # How the harness drives the iterator and looks at what it returns.  The property is about the emitted groups, whichever
 # way a consumer takes them: one at a time, collected first and inspected afterwards, through the documented `next()`
 # method, modifying the lists it was handed, with the contig order given as a FASTA index file, or over real MafRecords.
-MODES = ["stream", "collect", "next", "consume", "fai", "records", "readers"]
+MODES = ["stream", "collect", "next", "consume", "fai", "fai-gone", "peekable", "records", "readers"]
 
 
 class RecordOf:
@@ -160,11 +160,23 @@ def drive(make, inputs, contigs, mode, limit, allele_columns=False):
         ids = lambda slot: [int(r["Hugo_Symbol"].value[1:]) for r in slot]   # noqa: E731
     tmp = None
     try:
-        if mode == "fai":
+        if mode in ("fai", "fai-gone"):
             fd, tmp = tempfile.mkstemp(suffix=".fai", prefix="verif_overlap_")
             with os.fdopen(fd, "w") as h:
                 h.write("".join("%s\t1000\t%d\t60\t61\n" % (c, 10 + 1017 * n) for n, c in enumerate(contigs)))
-        it = make(srcs if mode == "readers" else [iter(x) for x in srcs], tmp)
+        if mode in ("fai", "fai-gone"):
+            pass
+        if mode == "peekable":
+            # an input that already is a PeekableIterator (a caller that peeked at its inputs before handing them over)
+            from maflib.util import PeekableIterator
+            it = make([PeekableIterator(iter(x)) for x in srcs], tmp)
+        else:
+            it = make(srcs if mode == "readers" else [iter(x) for x in srcs], tmp)
+        if mode == "fai-gone":
+            # the index file was a temporary: it is gone (or rewritten) by the time the first group is asked for; the order is
+            # the one supplied when the iterator was made
+            os.unlink(tmp)
+            tmp = None
         groups = []
         if mode == "collect":
             held = list(itertools.islice(it, limit + 1))          # all groups first ...
@@ -201,7 +213,7 @@ def drive(make, inputs, contigs, mode, limit, allele_columns=False):
 
 def mode_applies(mode, contigs):
     """"fai" passes the contig order as a FASTA index file: only where a contig order is supplied."""
-    return mode != "fai" or bool(contigs)
+    return mode not in ("fai", "fai-gone") or bool(contigs)
 
 
 def run_impl(inputs, contigs, by_barcodes, limit=200, mode="stream"):
@@ -267,6 +279,8 @@ MODE_TEXT = {"stream": "each group looked at as soon as it is returned",
              "next": "driven through the next() method, groups looked at after the last one",
              "consume": "the consumer empties the lists it was handed before asking for the next group",
              "fai": "the contig order given as a FASTA index file (fasta_index=...)",
+             "fai-gone": "the contig order given as a FASTA index file that is removed before the first group is asked for",
+             "peekable": "the inputs are PeekableIterator objects",
              "records": "the inputs are real MafRecord objects",
              "readers": "the inputs are MafReader objects over files whose headers declare a sort order without contigs"}
 
